@@ -28,7 +28,24 @@ const (
 	xaPath = "example.com/verif/xa"
 	xbPath = "example.com/verif/xb"
 	xcPath = "example.com/verif/xc"
+	// two XGo packages with the same package name: only the import path tells them apart
+	xd1Path = "example.com/verif/d1/xd"
+	xd2Path = "example.com/verif/d2/xd"
 )
+
+const xd1Src = `package xd
+
+const XGoPackage = true
+
+type TD1 struct{ V int }
+`
+
+const xd2Src = `package xd
+
+const XGoPackage = true
+
+type TD2 struct{ V int }
+`
 
 const xaSrc = `package xa
 
@@ -80,6 +97,8 @@ func init() {
 	oracle.RegisterSource(xaPath, xaSrc)
 	oracle.RegisterSource(xbPath, xbSrc)
 	oracle.RegisterSource(xcPath, xcSrc)
+	oracle.RegisterSource(xd1Path, xd1Src)
+	oracle.RegisterSource(xd2Path, xd2Src)
 }
 
 type c15Case struct {
@@ -255,13 +274,30 @@ func c15Program(t *rapid.T) (*c15Case, map[string]int) {
 			fmt.Fprintf(&b, "\t%q\n", p)
 			has[p] = true
 		}
+		// the two same-named XGo packages need explicit names in Go source
+		if g.chance("samename", 1, 2) {
+			fmt.Fprintf(&b, "\txd1 %q\n\txd2 %q\n", xd1Path, xd2Path)
+			has[xd1Path], has[xd2Path] = true, true
+			g.feats["same-named-xgo-dependencies"]++
+		}
+		// blank imports (forced: they stay although nothing refers to them)
+		nblank := 0
+		for _, p := range rapid.Permutation([]string{"bytes", "errors", "io", "math", "time"}).Draw(t, "blankorder") {
+			if nblank < 3 && g.chance("blank", 1, 3) {
+				fmt.Fprintf(&b, "\t_ %q\n", p)
+				nblank++
+			}
+		}
+		if nblank >= 2 {
+			g.feats["file-with->=2-blank-imports"]++
+		}
 		b.WriteString(")\n\n")
 		if len(imps) >= 2 {
 			g.feats["file-with->=2-imports"]++
 		}
 		// exported signatures mentioning XGo dependency packages
 		var deps []string
-		for _, p := range []struct{ path, typ string }{{xaPath, "xa.TA"}, {xbPath, "xb.TB"}, {xcPath, "xc.TC"}} {
+		for _, p := range []struct{ path, typ string }{{xaPath, "xa.TA"}, {xbPath, "xb.TB"}, {xcPath, "xc.TC"}, {xd1Path, "xd1.TD1"}, {xd2Path, "xd2.TD2"}} {
 			if has[p.path] && g.chance("export", 2, 3) {
 				deps = append(deps, p.typ)
 			}
